@@ -342,8 +342,8 @@ impl Family for C07 {
 
     fn runs(t: Tier) -> u64 {
         match t {
-            Tier::Quick => 300_000,
-            Tier::Thorough => 30_000_000,
+            Tier::Quick => 2_000_000,
+            Tier::Thorough => 150_000_000,
         }
     }
 
